@@ -372,6 +372,8 @@ func winOperands(specs []actorSpec, core bool) {
 		case "V2":
 			add([]string{`\f`, `\..\g`, `D:\v\w`, `D:\f`, `D:\new`},
 				[]string{`\f`, `D:\v\w`}, []string{`\new`, `D:\new`}, []string{`\q`, `D:\v`})
+		case "V3":
+			add([]string{`\new`, `D:\new`}, nil, nil, []string{`\p\e`})
 		case "V0":
 			add([]string{`\p\q\f`, `D:\v\w`, `D:\new`}, []string{`D:\v\w`}, []string{`D:\new`}, []string{`\`})
 		}
